@@ -714,6 +714,14 @@ func (f *Frame) enterLoop(li *loopInfo, b *ssa.BasicBlock) {
 		s := li.modkeys[k]
 		st.Set(k, s, f.fresh("hv$"+k, s))
 	}
+	if _, ok := li.modkeys[allocKey]; ok {
+		// allocation only grows
+		rb := Bound{Name: "r!alloc", S: IntS}
+		rv := Var(rb.Name, IntS)
+		oldA := f.st.Get(allocKey, ArrayS(IntS, BoolS))
+		f.E.noteVars(oldA)
+		f.assume(Forall([]Bound{rb}, Implies(Select(oldA, rv), Select(st.Get(allocKey, ArrayS(IntS, BoolS)), rv))), "allocated objects stay allocated")
+	}
 	f.st = st
 	for _, nv := range li.phiNew {
 		f.assumeAllocated(nv)
